@@ -23,8 +23,8 @@ def teardown(_):
     C.rm_tree(_dir)
 
 
-def gen_content(rng, maxs=4, maxv=5):
-    ns, nv = rng.randint(1, maxs), rng.randint(1, maxv)
+def gen_content(rng, maxs=4, maxv=5, minv=1):
+    ns, nv = rng.randint(1, maxs), rng.randint(minv, maxv)
     if rng.random() < 0.04:
         ns, nv = rng.randint(17, 40), rng.randint(17, 30)  # medium sizes
     variants = []
@@ -178,8 +178,10 @@ def describe_direct(case, obs):
 def gen_files(rng, tier):
     n = 60 if tier == "quick" else 2000
     for t in range(n):
-        c = gen_content(rng, maxs=3, maxv=8)
-        c["anc_source"] = rng.choice([None, "POP", "bp"])
+        anc_source = rng.choice([None, "POP", "bp"])
+        # with a .bp file often three chromosomes (1, 2, 10), so that the file's chromosome order is not lexicographic
+        c = gen_content(rng, maxs=3, maxv=8, minv=7 if (anc_source == "bp" and rng.random() < 0.5) else 1)
+        c["anc_source"] = anc_source
         c["fmt_in"] = "pgen" if (c["anc_source"] != "POP" and rng.random() < 0.3) else "vcf.gz"
         c["fmt_out"] = rng.choice([".vcf", ".vcf.gz", ".pgen"])
         # haplotypes with variants absent from the genotypes must be reported and omitted
